@@ -28,7 +28,9 @@ def mk(cid, ps, fields, size, align, packed, vft, order=0):
     stmts = []
     if vft: stmts.append(vftable([], []))
     for i, (t, addr) in enumerate(fields):
-        stmts.append(field(True, 'f%d' % i, t, [a_int('address', addr)] if addr is not None else []))
+        # gaps are usually written without a name (`_: unknown<N>`), any number of them per type
+        nm = '_' if (tag(t) == 'unk' and (order + i) % 3 != 0) else 'f%d' % i
+        stmts.append(field(True, nm, t, [a_int('address', addr)] if addr is not None else []))
     return single_type_case(cid, ps, at, stmts)
 
 def grid1(ps, tag_):
